@@ -21,14 +21,15 @@ CLAIMS = {
     "C10": ("twin-block and sibling cross-check + interpolation-shape analysis + table provenance",
             "kind twin blocks of the segment parser and section defaults (identical after kind substitution, same origin, order kept), "
             "slab/fault siblings, every section interpolation is cur + f*(next-cur) of the neighbouring section (features and kernel), "
-            "per-section model loops, provenance/sizing of per-section tables, guarded section override",
+            "per-section model loops, provenance/sizing of per-section tables, guarded section override; down-dip blend by the segment fraction and "
+            "interpolated (never feature-wide) values handed to the models (I1.segment)",
             "§3.5, §3.6, §4 C10"),
     "C11": ("sign-domain abstract interpretation + computer-algebra proof of the interpolant + merge-structure analysis",
             "approx reflexive over {-,0,+} (known finding: false at 0), corner/user point merge structure (same-point overwrite at "
             "pair_i/2, append of (value,x,y), degree conversion), symbolic proof that the in-triangle interpolant is the affine function "
             "through the triangle's vertices, acceptance region = closed triangle + slack proportional to machine epsilon, vertex pairing, "
-            "min/max over all values, full-scan fallback, consumers pair each local depth with its own surface. Delaunay triangulation "
-            "is not decided",
+            "min/max over all values, full-scan fallback, consumers pair each local depth with its own surface; the default of the point-list form of every min/max depth entry equals the "
+            "default of its scalar form (SCHEMA.depth-defaults). Delaunay triangulation is not decided",
             "§3.13, §3.6, §4 C11"),
     "C12": ("validation-discipline analysis (size facts vs. element accesses, dominance of input gates)",
             "A2: every element access to an input-derived member vector on the query path is covered by a release-active size "
@@ -45,7 +46,8 @@ CLAIMS = {
             "input-indexed tables, sibling models agree on their guards; DIV.guard: in the model functions no floating-point division has a "
             "denominator that vanishes at depth zero / at the planet's centre / on the ridge / on the slab surface or trench line / where a laterally "
             "varying bound reaches zero or two of them coincide, unless a controlling condition excludes it (model functions and the gravity / "
-            "coordinate-system models reachable from a query). Finiteness of values in general is not decided",
+            "coordinate-system models reachable from a query); while loops of the wrap shape |v| OP B, v -= copysign(S, v) with their termination condition. "
+            "Finiteness of values in general is not decided",
             "§3.8, §4 C13"),
     "C14": ("static effect/alias analysis + parallel-loop discipline",
             "PURE over the query path (no shared write => no data race) and PAR on gwb-grid's parallel_for (disjoint affine "
@@ -58,7 +60,7 @@ CLAIMS = {
             "between two sections are mat3_cast(slerp(quat_cast, quat_cast, f)), mat3_cast is a proper rotation on unit quaternions, quat_cast "
             "inverts it on all four branches, slerp stays on the unit sphere (identity) and its linear short cut is of rounding size; Euler-angle "
             "basis matrices are proper rotations for all angles, the 3x3 product is the matrix product; thorough: "
-            "symbolic proof that the generated matrices satisfy R*R^T=I, det R=+1",
+            "symbolic proof that the generated matrices satisfy R*R^T=I, det R=+1; producer, walker and 2D wrapper agree on the width of the grains block (LAYOUT.L1)",
             "§3.12, §3.6, §4 C15"),
     "C16": ("forwarding (argument provenance) analysis",
             "FWD over the extern \"C\" API and WorldBuilderWrapper: callee, identity argument forms in declared order (whole strings, value-preserving parameter types), result "
@@ -79,7 +81,7 @@ CLAIMS.update({
             "provenance, PAR on the parallel callables and the pool, structure of the mesh filter (both per-cell loops cover all vertices), "
             "base64 length of appended blocks = 4*ceil(n/3) (proof over residues), zlib block structure ceil(n/b) blocks / last block 1..b (residues), the `no feature` guard of the tag scan can fire, Cartesian grid: node positions and VTK cell "
             "connectivity as closed forms of the loop indices; sphere grid: bilinear block patch (partition of unity, corners, edges) and "
-            "projection R*p/|p|; chunk grid: (lon, lat, r) lattice, conversion to Cartesian coordinates and connectivity; annulus grid: node circles and "
+            "projection R*p/|p|, every layer from a fresh copy of the unit shell at radius inner + (outer-inner) i/n; per-tag files from a one-hot mask that is fresh in every iteration; chunk grid: (lon, lat, r) lattice, conversion to Cartesian coordinates and connectivity; annulus grid: node circles and "
             "quads with the wrap-around column. The uncompressed numbering and the merging of sphere blocks are decided only for their depth field",
             "§3.2, §3.11, §4 C18"),
 })
@@ -121,7 +123,8 @@ CLAIMS.update({
             "per-section tables read only through cur+f*(next-cur) inside the kernel, slab/fault sibling table; SEG.line / SEG.arc: one "
             "segment step of the slab-frame kernel equals the planar construction (straight line: computer-algebra identity; circular arc: "
             "14 symbolic paths incl. probes just outside the rounding guards, 40-digit zero tests), SEG.frame: rotated axis = u(u.v)+-u x v, "
-            "common origin of the projections. Closest point on the trench, spherical corrections and Newton search are not decided",
+            "common origin of the projections; I1.segment: thickness / truncation between the two ends of a segment follow the fraction along the "
+            "segment (dependence of the inside test on both fractions). Spherical corrections and the convergence of the Newton search are not decided",
             "§3.5, §3.6, §3.9, §4 C06"),
     "C07": ("dependence-set analysis of culling bounds + structural coverage rules",
             "DEP: every depth cut-off / bounding box depends on all parameters the exact extent depends on (min depth, segment lengths "
@@ -137,7 +140,8 @@ CLAIMS.update({
             "the ridge-distance routine identical under 1->2, alias longitude L+-2*pi per half-range at every alias site (ALIAS.shift), wrappers as truth tables over their paths, "
             "periodic start value of the spherical Bezier search; plus translation invariance of the Cartesian polygon, "
             "signed-distance and ellipse kernels by a shift-degree abstract interpretation (SHIFT.translation) and the closed forms of the "
-            "Point distance kernels. Invariance of the remaining kernels (real arithmetic) is not decided",
+            "Point distance kernels; the culling box of slab/fault spans the extreme trench coordinates of each component (DEP.bbox-extremes). "
+            "Invariance of the remaining kernels (real arithmetic) is not decided",
             "§3.5, §4 C08"),
     "C09": ("algebraic normal form of the cross-section map + layout agreement + dominance of the refusal",
             "direction vector, Cartesian and spherical 2D->3D point map, degree conversion, release-active refusal as first statement, "
@@ -154,7 +158,9 @@ CLAIMS.update({
             "difference, same mid in build and search, both search functions, Euclidean distance of both coordinates); every section of the trench "
             "curve is examined by the closest-point search; Cartesian<->spherical round trip as an identity and on every path (all octants, both polar caps); closed forms "
             "of the Point distance kernels; closed, twin-symmetric on-segment test of the polygon routine; the Bezier result record is "
-            "stored as a whole. Nearest-ness, polygon exactness beyond the boundary test, Newton convergence are not decided",
+            "stored as a whole; NEWTON.objective: the value the closest-point search compares is the squared / haversine distance between the check point "
+            "and the point it reports, its Newton step is H'/|H''| of that H, the line search compares H, every curve part reaches the accept test. "
+            "Nearest-ness of the kd search, polygon exactness beyond the boundary test, convergence of the Newton iteration to the global minimum are not decided",
             "§3.6, §3.13, §4 C19"),
 })
 
@@ -163,7 +169,9 @@ CLAIMS.update({
             "ONLY two clauses: (B) boundary attainment of the half-space (T(0)=T_top, T(inf)=T_bottom), plate and constant-age plate "
             "models (T(0)=T_top, T(max depth)=T_bottom, every series term vanishes there) and of the linear models (by their verified "
             "form); (E) half space: convex combination with weight erfc(u>=0), dT/d(depth) and dT/d(age) of the documented sign. Bounds "
-            "and monotonicity of the 100-term series, the mass-conserving and slab plate models are not decided; plus the necessary "
+            "and monotonicity of the 100-term series and the slab plate model are not decided; mass-conserving slab: the two sides of the profile "
+            "(Gaussian above the coldest surface between T_min and the incoming value, entered only for T_ >= T_min; conductive side from T_min to the ambient value, "
+            "both reference models) - its minimum-temperature construction is not decided; plus the necessary "
             "conditions that features hand the local depth range to their models, that a model uses one value per physical parameter "
             "(PARAM.source) and that nothing is cached between queries",
             "§4 C20, §10.8"),
